@@ -405,7 +405,8 @@ ReadNextPart:
 			return fmt.Errorf("failed to get content-type from part")
 		}
 		contentType, optional := parseMultiPartHeader(multiPartContentType[0])
-		if strings.EqualFold(contentType, TypeMultipartRelated.String()) {
+		if strings.EqualFold(contentType, TypeMultipartRelated.String()) ||
+			strings.EqualFold(contentType, TypeMultipartAlternative.String()) {
 			goto ReadNextPart
 		}
 		part := msg.newPart(ContentType(contentType))
